@@ -114,6 +114,113 @@ def oracle(ctx, sc, res):
         ctx.fail("after run() the commands %r are not finished" % sorted(set(names) - set(res["finished"])), sc.describe())
 
 
+TYPED_SRC = '''
+from mpilot import params
+from mpilot.commands import Command
+
+RETURNED = {}     # result name -> the object its body returned
+RUNS = []         # result names, in execution order
+READS = []        # (consumer, the object it was handed)
+
+
+class Five(Command):
+    """plug-in style producer (no declared output): any consumer may read it; typed consumers check the finished value"""
+    inputs = {}
+
+    def execute(self, **kw):
+        RUNS.append(self.result_name)
+        RETURNED[self.result_name] = v = 5
+        return v
+
+
+class Word(Command):
+    inputs = {}
+
+    def execute(self, **kw):
+        RUNS.append(self.result_name)
+        RETURNED[self.result_name] = v = "12"
+        return v
+
+
+class _Reader(Command):
+    output = params.BooleanParameter()
+
+    def execute(self, **kw):
+        RUNS.append(self.result_name)
+        x = kw["X"]
+        for c in (x if isinstance(x, list) else [x]):
+            READS.append((self.result_name, c.result_name, c.result))
+        RETURNED[self.result_name] = v = True
+        return v
+
+
+class AsNum(_Reader):
+    inputs = {"X": params.ResultParameter(params.NumberParameter())}
+
+
+class AsStr(_Reader):
+    inputs = {"X": params.ResultParameter(params.StringParameter())}
+
+
+class AsAny(_Reader):
+    inputs = {"X": params.ResultParameter()}
+
+
+class Collect(_Reader):
+    inputs = {"X": params.ListParameter(params.ResultParameter())}
+'''
+
+
+def typed_consumers(ctx):
+    """one result read by consumers that declare different types for it (number, text, anything, a list): each is handed the very object the
+    producer returned, the producer runs once, and its stored result stays that object - through repeated runs and reads, in every file order"""
+    import sys, types, itertools
+    from mpilot.program import Program
+    name = "mpverif_typed"
+    if name not in sys.modules:
+        m = types.ModuleType(name)
+        sys.modules[name] = m
+        exec(compile(TYPED_SRC, name, "exec"), m.__dict__)
+    m = sys.modules[name]
+    rng = ctx.rng
+    lines = ["V = Five()", "W = Word()", "A = AsStr(X = V)", "B = AsNum(X = V)", "C = AsAny(X = V)", "D = Collect(X = [V, W, V])", "E = AsNum(X = W)", "F = AsStr(X = W)"]
+    for i in range(ctx.budget(12, 300)):
+        order = list(lines)
+        rng.shuffle(order)
+        src = "\n".join(order) + "\n"
+        m.RETURNED.clear(); del m.RUNS[:]; del m.READS[:]
+        ops = ["run"] + [rng.choice(["run", "read"]) for _ in range(rng.randrange(0, 3))]
+        try:
+            p = Program.from_source(src, libraries=(name,))
+            for op in ops:
+                if op == "run":
+                    p.run()
+                else:
+                    p.commands[rng.choice("VWABCDEF")].result
+            outcome = "ok"
+        except Exception as e:
+            outcome = progrun.classify(e)
+            p = locals().get("p")
+        ctx.case("typed " + src + repr(ops), sample=None)
+        ctx.count("typed_consumer_cases")
+        desc = {"source": src, "ops": ops}
+        if outcome != "ok":
+            ctx.fail("a well-typed model with differently typed consumers of one result failed: %s" % outcome, desc)
+            continue
+        for n in "VWABCDEF":
+            if m.RUNS.count(n) != 1:
+                ctx.fail("command %s executed %d times (expected exactly once)" % (n, m.RUNS.count(n)), desc)
+                break
+            if p.commands[n]._result is not m.RETURNED[n]:
+                ctx.fail("the stored result of %s is %r, its body returned %r: something replaced it" % (n, p.commands[n]._result, m.RETURNED[n]), desc)
+                break
+        else:
+            for consumer, producer, got in m.READS:
+                if got is not m.RETURNED[producer]:
+                    ctx.fail("%s was handed %r as the result of %s, whose body returned %r" % (consumer, got, producer, m.RETURNED[producer]), desc)
+                    break
+
+
 def run(ctx):
     ctx.check_proofs(["MPilot.Props.C01"])
     model = common.Model()
@@ -129,6 +236,7 @@ def run(ctx):
         if d:
             ctx.disagree("run-loop", sc.describe(), d[0][:600], d[1][:600])
         oracle(ctx, sc, res)
+    typed_consumers(ctx)
     return ctx.finish(
         rule="scenarios = (acyclic graph over opaque logging commands with references through direct parameters, lists and nested lists, "
              "repeated references, fan-in <= 5; textual order: every permutation for <= 3 commands, sampled above; chains of 20-60; "
